@@ -173,6 +173,32 @@ def _j3(seed):
     return Driver("j3", [a, b, c], W=2, K=2, beta=2.0, m=2, joint=True)
 
 
+@driver("j3mask")
+def _j3mask(seed):
+    # the same three series with the caller passing beta x mask itself (zeros at the pairs that straddle two series)
+    d = _j3(seed)
+    beta = np.full(d.Tp, 2.0)
+    for b in d.boundaries():
+        beta[b] = 0.0
+    return Driver("j3mask", d.series, W=2, K=2, beta=beta, m=2, joint=True)
+
+
+@driver("j4mask")
+def _j4mask(seed):
+    # four short series whose last point prefers the other cluster, per-pair cost beta x mask
+    rng = np.random.default_rng(41)
+    ser = []
+    for i, n in enumerate((3, 2, 3, 2)):
+        x = np.round(rng.normal(0.0 if i % 2 == 0 else 2.5, 0.5, size=(n, 1)), 3)
+        x[-1, 0] = 2.5 if i % 2 == 0 else 0.0
+        ser.append(x)
+    d = Driver("tmp", ser, W=1, K=2, beta=1.5, m=2, joint=True)
+    beta = np.full(d.Tp, 1.5)
+    for b in d.boundaries():
+        beta[b] = 0.0
+    return Driver("j4mask", ser, W=1, K=2, beta=beta, m=2, joint=True)
+
+
 @driver("j1")
 def _j1(seed):
     # joint labelling of a single series (== single-series front end)
